@@ -21,6 +21,8 @@ def build_engine(spec, weights=None):
         if cls == "Linear":
             return fl.Linear(name, list(ps[0]), e)
         if cls == "Function":
+            if len(ps) > 1:     # with substitution variables (a dict)
+                return fl.Function(name, ps[0], engine=e, variables=dict(ps[1]), load=True)
             return fl.Function.create(name, ps[0], e)
         if cls == "Discrete":
             return fl.Discrete(name, fl.Discrete.to_xy(ps[0], ps[1]), *ps[2:])
